@@ -93,6 +93,7 @@ func c14U(o J) *unstructured.Unstructured {
 func (l *c14Live) run(ev *c14Event) (keys []string) {
 	pc := l.b.pc
 	l.b.queue.Reset()
+	keys = []string{}
 	func() {
 		defer func() {
 			if r := recover(); r != nil {
@@ -234,6 +235,9 @@ func (g *c14Gen) parentObj(ctl *ctlSpec, ns, name, uid string) J {
 	}
 	spec := J{"replicas": int64(1)}
 	sel := c14Selectors[r.Intn(len(c14Selectors))]
+	if r.Bool() { // the usable ones, so that orphans find several takers
+		sel = c14Selectors[[]int{0, 0, 3, 4}[r.Intn(4)]]
+	}
 	if g.adv && r.Chance(1, 3) {
 		sel = c14HostileSelectors[r.Intn(len(c14HostileSelectors))]
 	}
@@ -711,6 +715,15 @@ func c14Record(w *vh.CaseWriter, l *c14Live, ev *c14Event, keys []string, flavou
 	}
 }
 
+// c14Features: what known-findings entries match on
+func c14Features(src, kind, role, upd string) []string {
+	f := []string{src + "-" + kind, "role-" + role}
+	if upd != "" {
+		f = append(f, "update-"+upd)
+	}
+	return f
+}
+
 func TestVerif_C14(t *testing.T) {
 	env := vh.GetEnv()
 	if env.OutDir == "" {
@@ -723,7 +736,7 @@ func TestVerif_C14(t *testing.T) {
 	}
 	emit := func(id string, l *c14Live, ev *c14Event) {
 		keys := l.run(ev)
-		replay := J{"world": l.spec, "event": ev, "enqueued": keys}
+		replay := J{"world": l.spec, "event": ev, "enqueued": keys, "features": c14Features(ev.Src, ev.Kind, ev.Role, ev.Upd)}
 		if err := w.Add(id, c14CoqCase(l, ev, keys), "C14_check", replay); err != nil {
 			t.Fatal(err)
 		}
